@@ -95,6 +95,10 @@ def bounds_table(name, t, n):
         return slo, vhi, {'xmin': slo, 'xmax': vhi.copy()}
     if name == 'vecs':
         return vlo, shi, {'xmin': vlo.copy(), 'xmax': shi}
+    if name == 'intscalar':      # bounds given as python integers (xmin=0, xmax=1)
+        return 0.0, 1.0, {'xmin': 0, 'xmax': 1}
+    if name == 'intvec':         # bounds given as integer-typed arrays
+        return np.zeros(n), np.ones(n), {'xmin': np.zeros(n, dtype=int), 'xmax': np.ones(n, dtype=int)}
     if name == 'pinned':
         k = n // 2
         vlo = vlo.copy()
@@ -156,6 +160,7 @@ def horizon(move, xmin, xmax, n):
 
 
 _CLS = {}
+HELD = []
 
 
 def recorder_class():
@@ -171,6 +176,7 @@ def recorder_class():
 
         def _response(self, *xs):
             self.log.append([np.array(s.state, copy=True) for s in self.variables])
+            HELD.append([s.state for s in self.variables])      # the design objects themselves, kept like a history
             self.xs = [np.array(v, dtype=float, copy=True) for v in xs]
             if self.kind == 'inv':
                 return sum(float(np.sum(c / x)) for c, x in zip(self.cparts, self.xs))
@@ -248,6 +254,7 @@ def run_once(case, tol, stop):
     if case.get('rev'):
         order = order[::-1]
     log = []
+    HELD.clear()
     Rec = recorder_class()
     m = Rec([sigs[i] for i in order], pym.Signal('f'), case['kind'], [c[offs[i]:offs[i + 1]].copy() for i in order],
             sigs, log)
@@ -301,6 +308,14 @@ def judge_run(case, tol, stop):
             raise exc
         bad('raised', {'exc': type(exc).__name__, 'where': where}, error=str(exc)[:500], responses=nresp)
         tags.add('raised')
+    # designs handed to the network in earlier iterations (kept by reference, as a monitoring module would) are still the
+    # designs they were when the run has ended
+    if exc is None and case.get('sigkind') is None:
+        nchecks += 1
+        for k_, (refs_, cop_) in enumerate(zip(HELD, designs)):
+            if any(not np.array_equal(np.asarray(a_), np.asarray(b_)) for a_, b_ in zip(refs_, cop_)):
+                bad('earlier_design_changed', {}, evaluation=k_, now=[np.asarray(a_) for a_ in refs_], as_handed_out=cop_)
+                break
     nontrivial = False
     nupd = 0
     bands = {}
@@ -540,6 +555,7 @@ VARIANTS = [{'cscale': 1e-9}, {'xdtype': 'int'}]
 
 # wrong-sign rounding noise in one sensitivity; all variable signals started from one array object; variables that are
 # slices (contiguous / index arrays) of one signal
+INTB_AXES = dict(VARIANT_AXES, bounds=['intscalar', 'intvec'], kind_c=[['inv', 'asc'], ['inv', 'wide']])
 NOISE_AXES = dict(VARIANT_AXES, kind_c=[['inv', 'noise'], ['comp', 'noise'], ['invsq', 'noise']], bounds=['scalar', 'vec'])
 SHARED_AXES = dict(VARIANT_AXES, layouts=['two_3+3', 'len1+len1'])
 SLICE_AXES = dict(VARIANT_AXES, layouts=['two_2+3', 'three_1+2+3', 'one3_bare'])
@@ -550,6 +566,7 @@ def variant_cases(t):
         for c in _cases(VARIANT_AXES, t):
             yield dict(c, **var)
     yield from _cases(NOISE_AXES, t)
+    yield from _cases(INTB_AXES, t)
     for c in _cases(SHARED_AXES, t):
         yield dict(c, shared=True)
     for sk in ('basic', 'fancy'):
